@@ -615,6 +615,259 @@ theorem C03_roundtrip_gate (P : Params) (fuel fuel' : Nat) (s : S) (scope : List
     congr 3
     exact List.map_congr_left hfv
 
+/-! ## the general run: composites, cache, executors
+
+`Data.Op.run` is `runAny`: `Node.run` of ANY node — a function node or a composite of any nesting depth,
+with the cache on or off; `Op.submit` / `Op.complete` split a run at the executor boundary.  The gate
+is one and the same (`admission`): keywords, fetch, then — only for a node that is ready — the cache
+decision, else the refusal. -/
+
+/-- the keyword loop is a sequence of atomic assignments, not an atomic whole: a refused keyword
+changes nothing itself, the keywords before it stay delivered, the ones after it are not looked at.
+(The statement asks that nothing is *called* and that no channel takes a value its hint rejects —
+both hold — not that an aborted call rolls back its accepted assignments.) -/
+theorem C03_setInputs_refused_prefix (P : Params) (fuel : Nat) (s : S) (kw : List (Nat × Arg)) (e : Err)
+    (h : (setInputs P fuel s kw).2 = some e) :
+    ∃ kw1 p kw2, kw = kw1 ++ p :: kw2 ∧ (setInputs P fuel s kw1).2 = none ∧
+      assign P fuel (setInputs P fuel s kw1).1 p.1 p.2 = ((setInputs P fuel s kw1).1, some e) ∧
+      (setInputs P fuel s kw).1 = (setInputs P fuel s kw1).1 := by
+  induction kw generalizing s with
+  | nil => simp [setInputs] at h
+  | cons p kw ih =>
+    obtain ⟨c, a⟩ := p
+    unfold setInputs at h
+    cases ha : assign P fuel s c a with
+    | mk s' r =>
+      rw [ha] at h
+      cases r with
+      | some e' =>
+        simp only [Option.some.injEq] at h
+        subst h
+        refine ⟨[], (c, a), kw, rfl, rfl, ?_, ?_⟩
+        · simp only [setInputs]
+          have hs' : s' = s := by
+            cases a with
+            | v x =>
+              have := setVal_err P fuel s c x e' (by simp only [assign] at ha; rw [ha])
+              simp only [assign] at ha; rw [ha] at this; exact this
+            | ch o =>
+              simp only [assign] at ha
+              rcases connectS_cases P s c o with hc | ⟨_, _, hok, _⟩
+              · rw [ha] at hc; exact hc
+              · rw [ha] at hok; cases hok
+          rw [ha, hs']
+        · simp only [setInputs]
+          conv => lhs; unfold setInputs
+          rw [ha]
+          have hs' : s' = s := by
+            cases a with
+            | v x =>
+              have := setVal_err P fuel s c x e' (by simp only [assign] at ha; rw [ha])
+              simp only [assign] at ha; rw [ha] at this; exact this
+            | ch o =>
+              simp only [assign] at ha
+              rcases connectS_cases P s c o with hc | ⟨_, _, hok, _⟩
+              · rw [ha] at hc; exact hc
+              · rw [ha] at hok; cases hok
+          exact hs'
+      | none =>
+        simp only at h
+        obtain ⟨kw1, q, kw2, hk, h1, h2, h3⟩ := ih s' h
+        refine ⟨(c, a) :: kw1, q, kw2, by rw [hk]; rfl, ?_, ?_, ?_⟩
+        · conv => lhs; unfold setInputs
+          rw [ha]; exact h1
+        · have : setInputs P fuel s ((c, a) :: kw1) = setInputs P fuel s' kw1 := by
+            conv => lhs; unfold setInputs
+            rw [ha]
+          rw [this]; exact h2
+        · have e1 : setInputs P fuel s ((c, a) :: kw) = setInputs P fuel s' kw := by
+            conv => lhs; unfold setInputs
+            rw [ha]
+          have e2 : setInputs P fuel s ((c, a) :: kw1) = setInputs P fuel s' kw1 := by
+            conv => lhs; unfold setInputs
+            rw [ha]
+          rw [e1, e2]; exact h3
+
+/-- **the gate of any node**: whatever a run serves — a fresh invocation or an answer from the cache —
+the keywords and the fetch raised nothing and the node was ready (not running, not failed, every
+input holding data its strict hint accepts) in exactly the state the fetch left.  In particular a
+cache hit never serves a run the gate would refuse. -/
+theorem C03_admission_gate (P : Params) (fuel : Nat) (s : S) (n : Nat) (kw : List (Nat × Arg)) :
+    (∀ s' args, admission P fuel s n kw = (s', .admitted args) →
+      ∃ s1 s2, setInputs P fuel s kw = (s1, none) ∧ fetchAll P fuel s1 (s1.ins n) = (s2, none) ∧
+        nodeReady P s2 n = true ∧ args = (s2.ins n).map s2.val ∧
+        (s2.useCache n && cacheHit P s2 n args) = false) ∧
+    (∀ s', admission P fuel s n kw = (s', .hit) →
+      ∃ s1, setInputs P fuel s kw = (s1, none) ∧ fetchAll P fuel s1 (s1.ins n) = (s', none) ∧
+        nodeReady P s' n = true ∧ s'.useCache n = true ∧ cacheHit P s' n ((s'.ins n).map s'.val) = true) := by
+  rcases admission_spec P fuel s n kw with ⟨s1, e, _, h⟩ | ⟨s1, s2, e, _, _, h⟩ | ⟨s1, s2, h1, h2, h⟩
+  · exact ⟨fun s' a ha => (by rw [h] at ha; cases ha), fun s' ha => (by rw [h] at ha; cases ha)⟩
+  · exact ⟨fun s' a ha => (by rw [h] at ha; cases ha), fun s' ha => (by rw [h] at ha; cases ha)⟩
+  · rcases h with ⟨_, h⟩ | ⟨hr, hu, hc, h⟩ | ⟨hr, hc, h⟩
+    · exact ⟨fun s' a ha => (by rw [h] at ha; cases ha), fun s' ha => (by rw [h] at ha; cases ha)⟩
+    · refine ⟨fun s' a ha => (by rw [h] at ha; cases ha), fun s' ha => ?_⟩
+      rw [h] at ha
+      simp only [Prod.mk.injEq, and_true] at ha
+      subst ha
+      exact ⟨s1, h1, h2, hr, hu, hc⟩
+    · refine ⟨fun s' a ha => ?_, fun s' ha => (by rw [h] at ha; cases ha)⟩
+      rw [h] at ha
+      simp only [Prod.mk.injEq, Adm.admitted.injEq] at ha
+      exact ⟨s1, s2, h1, h2, hr, ha.2.symm, ha.2 ▸ hc⟩
+
+/-- a run that is not admitted — refused by a keyword, by the fetch or at the gate, or answered from
+the cache — calls **no function at all**, of the node or of any child, grandchild, …: for a composite
+whose input holds no data, or data its strict hint rejects, not one child function runs -/
+theorem C03_not_admitted_runs_nothing (P : Params) (fuel d : Nat) (s : S) (n : Nat) (kw : List (Nat × Arg))
+    (h : ∀ args, (admission P fuel s n kw).2 ≠ .admitted args) :
+    (runAny P fuel d s n kw).1.calls = s.calls ∧
+    ((runAny P fuel (d + 1) s n kw).2 = .hit ∨ ∃ e, (runAny P fuel (d + 1) s n kw).2 = .err e) := by
+  have hs := (admission_stat P fuel s n kw).2
+  constructor
+  · cases d with
+    | zero => rfl
+    | succ d =>
+      unfold runAny
+      cases ha : admission P fuel s n kw with
+      | mk s' a =>
+        rw [ha] at h hs
+        cases a with
+        | refused e => exact hs
+        | hit => exact hs
+        | admitted args => exact absurd rfl (h args)
+  · unfold runAny
+    cases ha : admission P fuel s n kw with
+    | mk s' a =>
+      rw [ha] at h
+      cases a with
+      | refused e => exact Or.inr ⟨e, rfl⟩
+      | hit => exact Or.inl rfl
+      | admitted args => exact absurd rfl (h args)
+
+/-- **no function is ever called on missing or ill-typed data**: every entry a run adds to the call
+log — by the node itself or, for a composite of any depth, by any descendant; cache on or off — is a
+call with one value per input of the callee, each of them data that the input's strict hint accepts -/
+theorem C03_calls_always_good (P : Params) (fuel d : Nat) (s : S) (n : Nat) (kw : List (Nat × Arg)) :
+    ∃ new, (runAny P fuel d s n kw).1.calls = s.calls ++ new ∧ ∀ e ∈ new, GoodCall P s e :=
+  (runAny_good P fuel d s n kw).2
+
+/-- a run shipped to an executor: the gate is evaluated by the submitter on the local channels, the
+arguments are fixed there and then, the node is `running` (its inputs locked) while the job is out … -/
+theorem C03_submit_gate (P : Params) (fuel : Nat) (s : S) (n : Nat) (kw : List (Nat × Arg))
+    (h : (submitRun P fuel s n kw).2 = .submitted) :
+    ∃ s1 s2 args, setInputs P fuel s kw = (s1, none) ∧ fetchAll P fuel s1 (s1.ins n) = (s2, none) ∧
+      nodeReady P s2 n = true ∧ args = (s2.ins n).map s2.val ∧ GoodCall P s (n, args) ∧
+      (submitRun P fuel s n kw).1.pending n = s.pending n ++ [args] ∧ (submitRun P fuel s n kw).1.running n = true ∧
+      (submitRun P fuel s n kw).1.calls = s.calls := by
+  unfold submitRun at h ⊢
+  cases ha : admission P fuel s n kw with
+  | mk s' a =>
+    rw [ha] at h
+    cases a with
+    | refused e => cases h
+    | hit => cases h
+    | admitted args =>
+      obtain ⟨s1, s2, h1, h2, hr, hargs, _⟩ := (C03_admission_gate P fuel s n kw).1 s' args ha
+      have hg := admission_admitted P fuel s n kw s' args ha
+      have hc := (admission_stat P fuel s n kw).2
+      rw [ha] at hc
+      have hp := admission_pending P fuel s n kw
+      rw [ha] at hp
+      refine ⟨s1, s2, args, h1, h2, hr, hargs, hg, by simp only [updF_same]; rw [hp], ?_, hc⟩
+      rcases admission_spec P fuel s n kw with ⟨_, _, _, h'⟩ | ⟨_, _, _, _, _, h'⟩ | ⟨t1, t2, _, _, h'⟩
+      · rw [ha] at h'; cases h'
+      · rw [ha] at h'; cases h'
+      · rcases h' with ⟨_, h'⟩ | ⟨_, _, _, h'⟩ | ⟨_, _, h'⟩
+        · rw [ha] at h'; cases h'
+        · rw [ha] at h'; cases h'
+        · rw [ha] at h'
+          simp only [Prod.mk.injEq] at h'
+          rw [h'.1]; simp [updF]
+
+/-- … and when the job completes the function is called exactly once, on exactly those arguments —
+whatever was assigned, fetched, connected or pickled in between -/
+theorem C03_complete_calls (P : Params) (fuel : Nat) (s : S) (n : Nat) (args : List Val) (rest : List (List Val))
+    (h : s.pending n = args :: rest) :
+    (completeRun P fuel s n).1.calls = s.calls ++ [(n, args)] ∧
+    (completeRun P fuel s n).2.isInvoked = true ∧ (completeRun P fuel s n).1.pending n = rest := by
+  unfold completeRun
+  rw [h]
+  have := finishRun_facts P fuel { s with pending := updF s.pending n rest } n args
+  exact ⟨this.2.1, this.1, by rw [this.2.2]; simp [updF]⟩
+
+/-- the local run of a function node with the cache off is the `runNode` of the theorems above: same
+refusals, same invocation, same call log -/
+theorem C03_run_function_node (P : Params) (fuel d : Nat) (s : S) (n : Nat) (kw : List (Nat × Arg))
+    (hk : s.kids n = []) (hc : s.useCache n = false) :
+    (∀ e, (runAny P fuel (d + 1) s n kw).2 = .err e ↔ (runNode P fuel s n kw).2 = .err e) ∧
+    ((runAny P fuel (d + 1) s n kw).2.isInvoked = (runNode P fuel s n kw).2.isInvoked) ∧
+    (runAny P fuel (d + 1) s n kw).1.calls = (runNode P fuel s n kw).1.calls := by
+  rcases admission_spec P fuel s n kw with ⟨s1, e, h1, h⟩ | ⟨s1, s2, e, h1, h2, h⟩ | ⟨s1, s2, h1, h2, h⟩
+  · have hr : runNode P fuel s n kw = (s1, .err e) := by simp [runNode, h1]
+    have ha : runAny P fuel (d + 1) s n kw = (s1, .err e) := by simp [runAny, h]
+    rw [hr, ha]; exact ⟨fun _ => Iff.rfl, rfl, rfl⟩
+  · have hr : runNode P fuel s n kw = (s2, .err e) := by simp [runNode, h1, h2]
+    have ha : runAny P fuel (d + 1) s n kw = (s2, .err e) := by simp [runAny, h]
+    rw [hr, ha]; exact ⟨fun _ => Iff.rfl, rfl, rfl⟩
+  · have hs1 := setInputs_stat P fuel s kw
+    rw [h1] at hs1
+    have hs2 := fetchAll_stat P fuel s1 (s1.ins n)
+    rw [h2] at hs2
+    have hk2 : s2.kids n = [] := by rw [hs2.1.kids, hs1.1.kids]; exact hk
+    have hc2 : s2.useCache n = false := by rw [hs2.1.useCache, hs1.1.useCache]; exact hc
+    rcases h with ⟨hrd, h⟩ | ⟨_, hu, _, _⟩ | ⟨hrd, _, h⟩
+    · have hr : runNode P fuel s n kw = (s2, .err .readiness) := by simp [runNode, h1, h2, hrd]
+      have ha : runAny P fuel (d + 1) s n kw = (s2, .err .readiness) := by simp [runAny, h]
+      rw [hr, ha]; exact ⟨fun _ => Iff.rfl, rfl, rfl⟩
+    · rw [hc2] at hu; cases hu
+    · have ha : runAny P fuel (d + 1) s n kw =
+          finishRun P fuel { s2 with cached := updF s2.cached n none, running := updF s2.running n true } n
+            ((s2.ins n).map s2.val) := by
+        simp [runAny, h, hk2]
+      have hf := finishRun_facts P fuel { s2 with cached := updF s2.cached n none, running := updF s2.running n true } n
+        ((s2.ins n).map s2.val)
+      have hinv : (runNode P fuel s n kw).2.isInvoked = true := by
+        rw [C03_gate]
+        refine ⟨s1, s2, h1, h2, ?_⟩
+        have := hrd
+        unfold nodeReady at this
+        simp only [Bool.and_eq_true, Bool.not_eq_true', List.all_eq_true] at this
+        exact ⟨this.1.1, this.1.2, fun i hi => (chanReady_iff P s2 i).mp (this.2 i hi)⟩
+      have hcalls := C03_called_with P fuel s n kw s1 s2 h1 h2 hinv
+      rw [ha]
+      refine ⟨fun e => ?_, by rw [hf.1, hinv], ?_⟩
+      · constructor
+        · intro hh; rw [hh] at hf; simp [Out.isInvoked] at hf
+        · intro hh; rw [hh] at hinv; simp [Out.isInvoked] at hinv
+      · rw [hf.2.1, hcalls]
+        show s2.calls ++ _ = _
+        rw [hs2.2, hs1.2]
+
+/-- `save()` / `load()` through a file is the round trip followed by a second `__setstate__` of the top
+composite (`Node.load`: `self.__setstate__(inst.__getstate__())`) whose children arrive still connected:
+the stored pairs are what the input lists hold, every re-`connect` finds its pair present, nothing moves —
+in whichever order the loop runs -/
+theorem C03_file_second_restore_noop (P : Params) (st : S) (C : Comp)
+    (hres : ∀ i ∈ C.ins, ∀ o ∈ st.conns i, C.resOut.lookup o = some o) :
+    restoreConns P st C.resOut (if P.cfg.revIter then (saved P st C).reverse else saved P st C) = (st, none) := by
+  apply restoreConns_present
+  have hmem : ∀ p ∈ saved P st C, C.resOut.lookup p.2 = some p.2 ∧ p.2 ∈ st.conns p.1 := by
+    intro p hp
+    have hp' : p ∈ strings st C.ins := by
+      unfold saved at hp
+      split at hp
+      · exact (List.mem_filter.mp hp).1
+      · exact hp
+    unfold strings at hp'
+    obtain ⟨i, hi, hp'⟩ := List.mem_flatMap.mp hp'
+    obtain ⟨o, ho, hpo⟩ := List.mem_map.mp hp'
+    subst hpo
+    exact ⟨hres i hi o ho, ho⟩
+  intro p hp
+  split at hp
+  · exact hmem p (List.mem_reverse.mp hp)
+  · exact hmem p hp
+
 /-! ## concrete worlds (non-vacuity and the witness for the excluded operation) -/
 
 def exKind (c : Nat) : Kind := if c < 3 ∨ c = 20 ∨ c = 21 then .dataIn else .dataOut
@@ -789,6 +1042,55 @@ example : (roundTrip exPp 8 lkS lkScope lkComps).1.val 0 = .d 7 := by decide
 example : (roundTrip exPp 8 (Data.step exP 8 lkS (.link 21 none)).1 lkScope lkComps).2 = some .serial := by decide
 example : (roundTrip exP 8 (Data.step exP 8 lkS (.link 21 none)).1 lkScope lkComps).2 = none := by decide
 
+/-! ### concrete general runs -/
+
+/-- the consumer 0 of `exInit` (cache ON here) as the only child of a macro 7 with inputs 40, 41, 42
+(forwarding to 0, 1, 2; 40 carries the same int-like hint as 0) and outputs 43, 44, 45 -/
+def mcKind (c : Nat) : Kind := if c < 3 ∨ (40 ≤ c ∧ c < 43) then .dataIn else .dataOut
+def mcOwner (c : Nat) : Nat := if c < 6 then 0 else 7
+def mcInit : S :=
+  init mcKind mcOwner (fun c => c = 0 ∨ c = 1) (fun _ => true)
+    (fun n => if n = 0 then [0, 1, 2] else if n = 7 then [40, 41, 42] else [])
+    (fun n => if n = 0 then [3, 4, 5] else if n = 7 then [43, 44, 45] else [])
+    (fun n => n = 0) (fun n => if n = 7 then [0] else []) (fun _ => [])
+def mcS : S :=
+  Data.run exP 8 mcInit [.link 40 (some 0), .link 41 (some 1), .link 42 (some 2), .link 3 (some 43),
+    .link 4 (some 44), .link 5 (some 45), .set 40 (.d 7), .set 41 (.d 100)]
+
+-- the macro's input 42 holds no data: its gate refuses, not one child function runs
+example : (runAny exP 8 8 mcS 7 []).2 = .err .readiness ∧ (runAny exP 8 8 mcS 7 []).1.calls = [] ∧
+    (runAny exP 8 8 mcS 7 []).1.failed 7 = false ∧ (admission exP 8 mcS 7 []).2 = .refused .readiness := by
+  decide
+-- a value the child's strict hint rejects never gets into the macro (the forwarding setter refuses) …
+example : (Data.step exP 8 mcS (.set 40 (.d 500))).2 = .err .type := by decide
+-- … all three set: the macro is admitted, its child passes its own gate and is called on the forwarded values,
+-- the macro's outputs hear the result
+example : (runAny exP 8 8 mcS 7 [(42, .v (.d 5))]).2 = .invoked none ∧
+    (runAny exP 8 8 mcS 7 [(42, .v (.d 5))]).1.calls = [(0, [.d 7, .d 100, .d 5])] ∧
+    (runAny exP 8 8 mcS 7 [(42, .v (.d 5))]).1.val 43 = .d 7 := by decide
+-- the child's own gate inside an admitted macro: its input 2 was emptied behind the macro's back — the child is
+-- refused, nothing is called, the macro fails with FailedChildError
+example : let s := (Data.step exP 8 (Data.step exP 8 mcS (.set 42 (.d 5))).1 (.set 2 .nd)).1
+    (runAny exP 8 8 s 7 []).2 = .invoked (some .child) ∧ (runAny exP 8 8 s 7 []).1.calls = [] ∧
+    (runAny exP 8 8 s 7 []).1.failed 7 = true ∧ (runAny exP 8 8 s 7 []).1.failed 0 = false := by decide
+-- the cache (node 0 has it on): a second run on the same inputs is answered from the cache; once an input
+-- is missing the very same node is refused — the hit is only considered for a ready node
+example : let s1 := (runAny exP 8 8 mcS 0 [(2, .v (.d 5))]).1
+    (runAny exP 8 8 mcS 0 [(2, .v (.d 5))]).2 = .invoked none ∧ (runAny exP 8 8 s1 0 []).2 = .hit ∧
+    (runAny exP 8 8 s1 0 []).1.calls = [(0, [.d 7, .d 100, .d 5])] ∧
+    (runAny exP 8 8 (Data.step exP 8 s1 (.flag 0 false true)).1 0 []).2 = .err .readiness := by decide
+-- shipped to an executor: submitted (running, inputs locked), an assignment in between is refused, and the job
+-- completes on the arguments fetched at submission
+example : let s1 := (submitRun exP 8 mcS 0 [(2, .v (.d 5))]).1
+    (submitRun exP 8 mcS 0 [(2, .v (.d 5))]).2 = .submitted ∧ s1.running 0 = true ∧ s1.calls = [] ∧
+    (Data.step exP 8 s1 (.set 2 (.d 6))).2 = .err .runtime ∧ (runAny exP 8 8 s1 0 []).2 = .err .readiness ∧
+    (completeRun exP 8 s1 0).2 = .invoked none ∧ (completeRun exP 8 s1 0).1.calls = [(0, [.d 7, .d 100, .d 5])] ∧
+    (completeRun exP 8 s1 0).1.running 0 = false := by decide
+-- a refused keyword leaves the earlier keyword delivered (C03_setInputs_refused_prefix)
+example : (setInputs exP 8 mcS [(42, .v (.d 5)), (40, .v (.d 500)), (41, .v (.d 101))]).2 = some .type ∧
+    (setInputs exP 8 mcS [(42, .v (.d 5)), (40, .v (.d 500)), (41, .v (.d 101))]).1.val 2 = .d 5 ∧
+    (setInputs exP 8 mcS [(42, .v (.d 5)), (40, .v (.d 500)), (41, .v (.d 101))]).1.val 41 = .d 100 := by decide
+
 end PwVerif.C03
 
 #print axioms PwVerif.C03.C03_fetch_spec
@@ -820,3 +1122,11 @@ end PwVerif.C03
 #print axioms PwVerif.C03.C03_roundtrip_gate
 #print axioms PwVerif.C03.C03_roundtrip_reverses_witness
 #print axioms PwVerif.C03.C03_second_marker_witness
+#print axioms PwVerif.C03.C03_setInputs_refused_prefix
+#print axioms PwVerif.C03.C03_admission_gate
+#print axioms PwVerif.C03.C03_not_admitted_runs_nothing
+#print axioms PwVerif.C03.C03_calls_always_good
+#print axioms PwVerif.C03.C03_submit_gate
+#print axioms PwVerif.C03.C03_complete_calls
+#print axioms PwVerif.C03.C03_run_function_node
+#print axioms PwVerif.C03.C03_file_second_restore_noop
